@@ -178,7 +178,7 @@ enum Outcome {
 /// Runs one real entry point. `keep` leaks an `Ok` value instead of dropping it (ladder
 /// cases: only the parse itself is judged, not the destructor of a deep tree).
 fn run_entry(env: &Env, lang: Lang, entry: &str, text: &str, keep: bool) -> Outcome {
-    fn finish<T, E: std::fmt::Display>(r: Result<T, E>, keep: bool) -> Result<(), bool> {
+    fn finish<T, E: std::error::Error>(r: Result<T, E>, keep: bool) -> Result<(), bool> {
         match r {
             Ok(v) => {
                 if keep {
@@ -187,11 +187,18 @@ fn run_entry(env: &Env, lang: Lang, entry: &str, text: &str, keep: bool) -> Outc
                 Ok(())
             }
             Err(e) => {
-                let msg = e.to_string();
+                // render the whole error chain, as the CLI does when it reports the error
+                let mut msg = e.to_string();
+                let mut source = e.source();
+                while let Some(s) = source {
+                    msg.push_str(": ");
+                    msg.push_str(&s.to_string());
+                    source = s.source();
+                }
                 if keep {
                     std::mem::forget(e);
                 }
-                Err(msg.contains("recursive") || msg.contains("Recursive"))
+                Err(msg.contains("recursive"))
             }
         }
     }
@@ -926,6 +933,7 @@ fn crash_kind(exit: &Exit) -> Option<&'static str> {
 
 struct Shared<'a> {
     ctx: &'a Ctx,
+    child_ms: Mutex<BTreeMap<String, u64>>,
     capped: Mutex<Vec<Value>>,
     totals: Mutex<BTreeMap<String, Value>>,
     samples: Mutex<Vec<Value>>,
@@ -995,6 +1003,7 @@ impl Shared<'_> {
 fn run_shard(sh: &Shared, key: &str, spec: Value, cpu_cap_s: u64) {
     let scratch = sh.ctx.scratch();
     let run = run_child(scratch, spec.clone(), cpu_cap_s);
+    *sh.child_ms.lock().unwrap().entry(key.to_owned()).or_default() += run.wall_ms as u64;
     match &run.exit {
         Exit::Clean => sh.add_tally(key, &result_of(&run)),
         Exit::Capped(why) => {
@@ -1066,6 +1075,7 @@ fn run_ladder(sh: &Shared, lang: Lang, production: &str, rungs: &[usize], cpu_ca
     };
     for (i, &depth) in rungs.iter().enumerate() {
         let r = run_single(scratch, spec_for(depth), cpu_cap_s);
+        *sh.child_ms.lock().unwrap().entry(format!("{}/ladder/{production}", lang.name())).or_default() += r.wall_ms as u64;
         rep.rungs_run.push(depth);
         sh.cases.fetch_add(1, Ordering::Relaxed);
         sh.evals.fetch_add(r.done.len() as u64 + r.in_progress.is_some() as u64, Ordering::Relaxed);
@@ -1224,6 +1234,7 @@ fn main() {
 
     let sh = Shared {
         ctx: &ctx,
+        child_ms: Mutex::new(BTreeMap::new()),
         capped: Mutex::new(vec![]),
         totals: Mutex::new(BTreeMap::new()),
         samples: Mutex::new(vec![]),
@@ -1401,6 +1412,7 @@ fn main() {
             ("alias_recursion_errors".to_string(), json!(sh.recursion_errors.load(Ordering::Relaxed))),
             ("ladders".to_string(), json!(ladder_json)),
             ("capped".to_string(), json!(capped)),
+            ("child_wall_ms_per_family".to_string(), json!(*sh.child_ms.lock().unwrap())),
             ("cpu_cap_s_per_ladder_case".to_string(), json!(ladder_cap_s)),
             ("cpu_cap_s_per_enumeration_shard".to_string(), json!(shard_cap_s)),
             ("stack_bytes".to_string(), json!(STACK_BYTES)),
